@@ -23,8 +23,10 @@ PLANS = {
     "C03": plan(shards(20, 240)),
     "C05": plan(shards(20, 240)),
     "C08": plan(shards(20, 240)),
+    "C12": plan(shards(20, 240)),
     "C13": plan(shards(20, 240)),
     "C07": plan(shards(20, 240)),
+    "C14": plan(shards(20, 240)),
     "C15": plan(shards(20, 240)),
     "C16": plan(shards(20, 240)),
     "C17": plan(shards(20, 240)),
